@@ -44,6 +44,9 @@ type caseT struct {
 	Expect  expT            `json:"expect"`
 	Profile []blockT        `json:"profile"`
 	Total   int             `json:"total"`
+	// FileHist: histories of runs writing to one profile path (true = -coverappend), each started from no file and
+	// from a longer stale file; the prediction is Cover!ProfileFileAfter with this run's block lines as body.
+	FileHist [][]bool `json:"filehist"`
 }
 
 var goawkBin = os.Getenv("VERIF_GOAWK")
@@ -239,6 +242,71 @@ func runLayout(c *caseT, items []string, seed uint32, k int, rr bool, stdin []by
 		}
 		if o := checkProfile(c, mode, string(data), files, dir, labelAt, cls, show); o != nil {
 			return o
+		}
+		// the histories on one profile path: for the shapes made for coverage and a quarter of the other programs,
+		// in the single-file layout
+		if mode == "count" && k == 1 && (c.Fam == "covershape" || seed%4 == 0) {
+			if o := checkFileHistories(c, dir, fargs, stdin, string(data), cls, show); o != nil {
+				return o
+			}
+		}
+	}
+	return nil
+}
+
+// checkFileHistories replays the exported histories of runs on one profile path.  fresh is the profile a single
+// run writes to a new file (header line + block lines); the model (Cover!WriteProfileFile): without -coverappend
+// the file becomes exactly that, whatever it held; with it (and the file present) the block lines are added.
+func checkFileHistories(c *caseT, dir string, fargs []string, stdin []byte, fresh, cls, show string) *hx.Outcome {
+	lines := strings.SplitAfter(fresh, "\n")
+	if len(lines) < 2 {
+		return nil
+	}
+	header, body := lines[0], strings.Join(lines[1:], "")
+	for hi, hist := range c.FileHist {
+		for _, stale := range []bool{false, true} {
+			path := fmt.Sprintf("prof.hist%d.%v", hi, stale)
+			full := filepath.Join(dir, path)
+			model, exists := "", false
+			if stale {
+				// a longer profile left by an earlier, bigger program
+				model, exists = header+body+body+"/stale/prog.awk:1.1,9.9 4 2\n/stale/prog.awk:10.1,19.9 3 1\n", true
+				if err := os.WriteFile(full, []byte(model), 0o644); err != nil {
+					o := hx.Outcome{Fail: &hx.Failure{Sig: "HARNESS-PANIC", What: err.Error()}}
+					return &o
+				}
+			}
+			for ri, app := range hist {
+				args := append(append([]string{}, fargs...), "-coverprofile", path, "-covermode", "count")
+				if app {
+					args = append(args, "-coverappend")
+				}
+				r := runCLI(dir, args, stdin)
+				if r.hang {
+					o := hx.Fail("C18/hang/"+cls, "run with coverage does not terminate", nil, nil, show)
+					return &o
+				}
+				if exists && app {
+					model += body
+				} else {
+					model = header + body
+				}
+				exists = true
+				got, err := os.ReadFile(full)
+				if err != nil || string(got) != model {
+					what := "profile-file-overwrite"
+					if app {
+						what = "profile-file-append"
+					}
+					from := "no file"
+					if stale {
+						from = "a longer stale profile"
+					}
+					o := hx.Fail("C18/"+what+"/"+cls, fmt.Sprintf("run %d of the history %v on one profile path (true = -coverappend), started from %s: the file is not what the model of the profile file predicts",
+						ri+1, hist, from), model, string(got), show)
+					return &o
+				}
+			}
 		}
 	}
 	return nil
